@@ -108,6 +108,17 @@ pub fn run(path: &str) -> i32 {
             }
             return 0;
         }
+        "api-history" => {
+            let ops: Vec<u8> = j.get("ops").and_then(|c| c.as_array()).map(|a| a.iter().filter_map(|x| x.as_u64()).map(|x| x as u8).collect()).unwrap_or_default();
+            let docs: Vec<MObj> = j.get("documents").and_then(|d| d.as_array()).map(|a| a.iter().filter_map(mobj_from_json).collect()).unwrap_or_default();
+            if let (Some(y), Some(sw)) = (rule_yaml, sw) {
+                println!("--- rule ---\n{}", y);
+                if docs.len() >= 3 {
+                    crate::c12::replay_api_history(y, sw, &docs, &ops);
+                }
+            }
+            return 0;
+        }
         "validate-history" => {
             let ops: Vec<u8> = j.get("ops").and_then(|c| c.as_array()).map(|a| a.iter().filter_map(|x| x.as_u64()).map(|x| x as u8).collect()).unwrap_or_default();
             let names: Vec<&str> = ops.iter().map(|o| crate::c13::HIST_OPS[*o as usize]).collect();
